@@ -60,6 +60,9 @@ def family(rng):
         tw = [typed([[gens.q(o), k] for o, k in zip(x, c)], "int") for x in (a, b)]
         if rng.random() < 0.5:
             tw.reverse()
+        if a[0] == 0 and a[1] == 1 and len(a) == 3 and a[2] == 3:
+            # 2**61-sized outcomes do not survive float arithmetic: keep this family exact
+            fam = [[[["Fraction" if o[0] == "float" else o[0], o[1], o[2]], c] for o, c in member] for member in fam]
         fam = fam[:2] + tw + fam[2:]
     return fam
 
@@ -147,6 +150,15 @@ def gen_cases(rng, tier):
         fam = family(rng)
         qs = [gen_query(rng, fam) for _ in range(rng.randint(2, 6))]
         qs = _with_echo(rng, qs, fam)
+        if rng.random() < 0.4:
+            # the same order statistic asked of one short-lived object after another (each dies before the next is
+            # built, so addresses get reused): members of the family and an unrelated histogram
+            n0 = rng.randint(1, 3)
+            pos0 = rng.randint(-n0, n0 - 1)
+            other = typed(gens.hist(rng, max_faces=3, style="pos", frac_p=0.0, min_faces=2), "int")
+            members = list(fam) + [other]
+            rng.shuffle(members)
+            qs += [{"q": "order", "h": m, "n": n0, "pos": pos0} for m in members]
         cases.append({"kind": "history", "queries": qs})
     for _ in range(n):
         objs = family(rng)
@@ -167,7 +179,15 @@ def gen_cases(rng, tier):
             j = rng.randrange(len(qs) + 1)
             qs[j:j] = sweep
         qs = _with_echo(rng, qs, [{"ref": i} for i in range(len(objs))])
-        cases.append({"kind": "shared", "objects": objs, "queries": qs})
+        extra = []
+        for q in qs:
+            extra.append(q)
+            if q["q"] == "order" and q["n"] >= 2 and rng.random() < 0.7:
+                # the pool of n copies of the object whose order statistics were just computed, one position - in range,
+                # and just past either end (IndexError)
+                for i in rng.sample([0, -1, q["n"] - 1, q["n"], -q["n"] - 1], 2):
+                    extra.append({"q": "h", "dice": [q["h"]] * q["n"], "which": [{"i": i}]})
+        cases.append({"kind": "shared", "objects": objs, "queries": extra})
     return cases
 
 
@@ -280,10 +300,23 @@ def _expected(case, q):
     return None
 
 
+def _oob(case, q):
+    """a pool question with an integer position outside [-n, n): IndexError is the documented answer"""
+    if q["q"] not in ("h", "rwc"):
+        return False
+    n = len([d for d in q["dice"] if sum(c for _, c in _obj(case, d)) != 0])
+    return any("i" in w and not (-n <= w["i"] < n) for w in q.get("which") or [])
+
+
 def agree(case, r, o):
-    if not (r["warm"] == r["cold"] and all("exc" not in a for a in r["cold"])):
+    if r["warm"] != r["cold"]:
         return False
     for q, a in zip(case["queries"], r["cold"]):
+        if ("exc" in a) != _oob(case, q) or ("exc" in a and a["exc"] != "IndexError"):
+            return False
+    for q, a in zip(case["queries"], r["cold"]):
+        if "exc" in a:
+            continue
         e = _expected(case, q)
         if e == "UMAP":
             if a["ok"][1:] != [1, True, True, 1]:
